@@ -93,7 +93,7 @@ def check(rep, tier):
         cfg = base_cfg(rng, var)
         if cfg["shape"][2] > 1:
             var = False        # pallets have no shelf term: no random vector
-        key = (cfg["arr"], cfg["shape"], var)
+        key = (cfg["arr"], cfg["shape"], var, repr(np.asarray(cfg["k"]["s0"]).tolist()), cfg["seed_v"])       # everything the reference run depends on
         cur = {"shape": cfg["shape"]}
         def ref(s, sv):
             kk = (key, cur["shape"], s, sv)
